@@ -272,6 +272,29 @@ fn w1b(idx: u64) -> Option<(String, String)> {
     Some((src, format!("{} / {}", tpl.replace('\n', "⏎"), u[vi].label)))
 }
 
+/// W1b': the same templates over long texts whose multi-byte characters straddle every byte offset (error
+/// messages quote values, keys and names: a message that cannot be rendered is a failure of the property)
+fn w1b_long(idx: u64) -> Option<(String, String)> {
+    const CH: &[&str] = &["é", "日", "😀", "a\u{301}"];
+    let nt = TEMPLATES.len() as u64;
+    let nv = (CH.len() * 4 * 3) as u64;
+    if idx >= nt * nv {
+        return None;
+    }
+    let tpl = TEMPLATES[(idx % nt) as usize];
+    let v = (idx / nt) as usize;
+    let (ch, pre, shape) = (CH[v % CH.len()], (v / CH.len()) % 4, v / (CH.len() * 4));
+    let text = format!("{}{}", "a".repeat(pre), ch.repeat(40));
+    let mut src = match shape {
+        0 => format!("Xeno is \"{}\"\n", text),
+        1 => format!("rock Xeno with \"{}\", \"{}\"\n", text, text),
+        _ => format!("let Xeno at \"{}\" be \"{}\"\n", text, text),
+    };
+    src.push_str(&tpl.replace("{X}", "Xeno").replace("{V}", "1"));
+    src.push('\n');
+    Some((src, format!("{} / long text {}+{}x40 shape {}", tpl.replace('\n', "⏎"), pre, ch, shape)))
+}
+
 /// W1c: programs the property names, and their neighbours
 const NAMED: &[&str] = &[
     "Foo takes X\ngive back X\n\nput 1 into Foo",
@@ -548,6 +571,12 @@ pub fn run(ctx: &mut Ctx) {
             ctx.seen("templates_used", label.split(" / ").next().unwrap_or(""));
             let stdin = stdin_for(rng);
             check_case(ctx, &src, &stdin, "template");
+        }
+    });
+    ctx.cases("long_text_templates", TEMPLATES.len() as u64 * 48, |ctx, rng, idx| {
+        if let Some((src, _)) = w1b_long(idx) {
+            let stdin = stdin_for(rng);
+            check_case(ctx, &src, &stdin, "long_text_template");
         }
     });
     let n = ctx.size(20_000, 800_000);
